@@ -3,7 +3,9 @@
    correspondence lines.  No proofs here.
 
    WIRE FORMAT (one case per line, integers):
-     case   := 13 NP kind_1..kind_NP MAXPROTOS PCAP TIMEOUT NC conn*NC NI init*NI step*
+     case   := 13 NP kind_1..kind_NP MAXPROTOS PCAP MAXU TIMEOUT NC conn*NC NI init*NI step*
+       MAXU   : the address book's limit on unconnected addresses over all peers (WithMaxAddresses)
+       TIMEOUT: the identify timeout in ns (WithTimeout); 0 = every exchange fails at once
        PCAP   : the address book's per-peer cap on unconnected addresses (0 = disabled)
        kind_p : 1 = the peer's ID embeds its key (Ed25519), 0 = hashed (RSA)
        conn   := peer rcls rid limited
@@ -38,7 +40,7 @@ Definition inline_of (inl : list Z) (p : Z) : option N :=
   if (0 <? p) && zin p inl then Some (Z.to_N p) else None.
 
 Record cfg := mkCfg {
-  g_np : Z; g_inline : list Z; g_maxprotos : Z; g_pcap : Z; g_timeout : Z;
+  g_np : Z; g_inline : list Z; g_maxprotos : Z; g_pcap : Z; g_maxu : Z; g_timeout : Z;
   g_conns : list (Z * conn); g_init : list (Z * Z * Z) }.
 
 Definition ttl_of_code (c : Z) : Z :=
@@ -48,10 +50,10 @@ Definition ttl_of_code (c : Z) : Z :=
 
 Definition init_ps (g : cfg) : pstore :=
   mkPS (fold_left (fun b x => let '(p, a, t) := x in a_add b p [(a, 0)] t) (g_init g) a_init)
-       [] [] [] (g_maxprotos g) (g_pcap g).
+       [] [] [] (g_maxprotos g) (g_pcap g) (g_maxu g).
 Definition init_sys (g : cfg) : sys := mkSys (init_ps g) [] [] [] [] [] [] 1.
 
-Definition gstep (g : cfg) := step sym_v id_of_n (inline_of (g_inline g)) (g_conns g).
+Definition gstep (g : cfg) := step sym_v id_of_n (inline_of (g_inline g)) (g_conns g) (g_timeout g).
 
 (* ---- what is observed of the peerstore --------------------------------------- *)
 Record pdump := mkPD { d_addrs : list (Z * Z); d_protos : list Z; d_key : Z; d_pv : Z; d_av : Z; d_rec : Z }.
@@ -222,10 +224,10 @@ Definition pcfg (v : Z) : P cfg :=
   np <- pint ;;
   if (np <? 1) || (64 <? np) then (fun _ => None) else
   kinds <- prep pint (Z.to_nat np) ;;
-  maxp <- pint ;; pcap <- pint ;; tmo <- pint ;;
+  maxp <- pint ;; pcap <- pint ;; maxu <- pint ;; tmo <- pint ;;
   conns <- pcount (p <- pint ;; rc <- pint ;; ri <- pint ;; lim <- pint ;; pret (mkConn p rc ri (zbool lim))) ;;
   init <- pcount (p <- pint ;; a <- pint ;; t <- pint ;; pret (p, a, ttl_of_code t)) ;;
-  pret (mkCfg np (map fst (filter (fun x => zbool (snd x)) (number 1 kinds))) maxp pcap tmo (number 1 conns) init).
+  pret (mkCfg np (map fst (filter (fun x => zbool (snd x)) (number 1 kinds))) maxp pcap maxu tmo (number 1 conns) init).
 
 Definition decode (l : list Z) : option (cfg * list (op * wobs)) :=
   match pcfg 13 l with
@@ -267,6 +269,7 @@ Definition op_evicts (s : pstore) (o : psop) : bool :=
   match o with
   | PAddAddrs p l ttl =>
       if ttl <=? 0 then false
+      else if is_unconn ttl && (ps_maxu s <=? uall (a_ents (ps_book s))) then false
       else snd (fold_left (fun (st : list aent * bool) a =>
                              (cadd_one (ps_pcap s) p ttl (a_now (ps_book s)) (fst st) a,
                               snd st || must_evict (ps_pcap s) p ttl (fst st) a))
@@ -452,7 +455,10 @@ Definition cl_connected (g : cfg) (m : mon) (o : op) (x : wobs) : bool :=
           (peers_of (g_np g)).
 (* 11: once the identify timeout has elapsed every wait channel is closed *)
 Definition cl_wait (g : cfg) (m : mon) (o : op) (x : wobs) : bool :=
-  match o with OTimeout _ => forallb (fun b => b) (wo_chans x) | _ => true end.
+  match o with
+  | OTimeout _ => forallb (fun b => b) (wo_chans x)
+  | _ => negb (g_timeout g =? 0) || forallb (fun b => b) (wo_chans x)   (* a zero timeout releases at once *)
+  end.
 
 (* 12: a record handed on in the Completed event is a valid own record of the message *)
 Definition cl_evrec (g : cfg) (m : mon) (o : op) (x : wobs) : bool :=
